@@ -130,3 +130,88 @@ def _resolve_parent(ctx):
         lambda it: it.run_function(method(ptr.JSONPointer, "resolve_parent"), [pointer_obj(it, Py.tuple(ps)), data], {}),
         lambda it: it.run_function(spec_fn(pspec, "resolve_parent"), [Py.tuple(ps), data], {}),
     )
+
+
+# ------------------------------------------------------------------ pointer algebra (C14), match -> pointer (C03, C20)
+
+encode_abs = z3.Function("pointer_encode", Py, z3.StringSort())
+
+
+@call_contract("jsonpath.pointer:JSONPointer._encode")
+def _encode_contract(it, fv, args, kwargs):
+    """ASSUMED here (string law bounded in C14): the text is a function of the token tuple,
+    and the empty tuple is spelled ''."""
+    parts = it.to_term(args[-1])
+    it.assume(z3.Implies(S.py_len(parts) == 0, encode_abs(parts) == z3.StringVal("")))
+    it.assumed.append("contract:JSONPointer._encode(uninterpreted function of the tokens; string law bounded in C14)")
+    return Py.str(encode_abs(parts))
+
+
+parse_abs = z3.Function("pointer_parse", z3.StringSort(), Py, Py, Py)
+
+
+@call_contract("jsonpath.pointer:JSONPointer._parse")
+def _parse_contract(it, fv, args, kwargs):
+    """ASSUMED here (string law bounded in C04/C14): a function of the text and the two decoding
+    switches; the empty string has no tokens (RFC 6901 section 3)."""
+    s_ = lib.T(it, args[1])
+    ue, ud = lib.T(it, kwargs.get("unicode_escape", S.TRUE)), lib.T(it, kwargs.get("uri_decode", S.FALSE))
+    r = parse_abs(Py.s(s_), ue, ud)
+    it.assume(Py.is_tuple(r))
+    it.assume(z3.Implies(Py.s(s_) == z3.StringVal(""), r == S.mk_tuple([])))
+    it.assumed.append("contract:JSONPointer._parse(uninterpreted function of the text; string law bounded in C04/C14)")
+    return r
+
+
+def two_pointers(ctx):
+    a, b = ctx.seq("self_parts"), ctx.seq("other_parts")
+    return a, b
+
+
+@contract("JSONPointer.is_relative_to==spec", ("C14", "C05"), [P + "is_relative_to"], replay=("relative_replay", []))
+def _is_relative_to(ctx):
+    a, b = two_pointers(ctx)
+    ctx.equiv(
+        "is_relative_to",
+        lambda it: it.run_function(method(ptr.JSONPointer, "is_relative_to"), [pointer_obj(it, Py.tuple(a)), pointer_obj(it, Py.tuple(b))], {}),
+        lambda it: it.run_function(spec_fn(pspec, "is_relative_to"), [Py.tuple(a), Py.tuple(b)], {}),
+    )
+
+
+@contract("JSONPointer.parent==spec", ("C14",), [P + "parent", P + "__init__"])
+def _parent(ctx):
+    a = ctx.seq("parts")
+
+    def code(it):
+        p = pointer_obj(it, Py.tuple(a))
+        p.fields["_s"] = Py.str(encode_abs(Py.tuple(a)))
+        r = it.run_function(method(ptr.JSONPointer, "parent"), [p], {})
+        return it.to_term(it.getattr(r, "parts"))
+
+    ctx.equiv("parent", code, lambda it: it.to_term(it.run_function(spec_fn(pspec, "parent_parts"), [Py.tuple(a)], {})))
+
+
+@contract("JSONPointer.__eq__==same-tokens", ("C14",), [P + "__eq__"])
+def _ptr_eq(ctx):
+    a, b = two_pointers(ctx)
+    ctx.equiv(
+        "__eq__",
+        lambda it: it.run_function(method(ptr.JSONPointer, "__eq__"), [pointer_obj(it, Py.tuple(a)), pointer_obj(it, Py.tuple(b))], {}),
+        lambda it: S.mk_bool(S.py_eq(Py.tuple(a), Py.tuple(b))),
+    )
+
+
+@contract("JSONPointer.from_match==parts", ("C03", "C20"), [P + "from_match", P + "__init__"])
+def _from_match(ctx):
+    from contracts.common import match_facts
+
+    m = ctx.val("match")
+    ctx.require(match_facts(m))
+
+    def code(it):
+        from pyvc.interp import ClassVal
+
+        r = it.call(it.getattr(ClassVal(ptr.JSONPointer), "from_match"), [m])
+        return S.mk_tuple([it.to_term(it.getattr(r, "parts")), it.to_term(it.getattr(r, "_s"))])
+
+    ctx.equiv("from_match", code, lambda it: S.mk_tuple([Py.mparts(m), Py.str(encode_abs(Py.mparts(m)))]))
